@@ -22,7 +22,7 @@ Apply(o) ==
 
 ViewOf(c) == [exists |-> c.exists, code |-> IF c.exists THEN ToString(c.code) ELSE "", label |-> c.label, admin |-> c.admin,
               mark |-> c.mark, count |-> IF c.exists THEN ToString(c.count) ELSE "", bal |-> IF c.exists THEN ToString(c.bal) ELSE ""]
-FundsText(f) == CASE f = 0 -> "" [] f = 7 -> "4zeta,3atom" [] OTHER -> ToString(f) \o "atom"      \* what the handler was handed, in the order given
+FundsText(f) == CASE f = 0 -> "-" [] f = 7 -> "4zeta,3atom" [] OTHER -> ToString(f) \o "atom"      \* what the handler was handed, in the order given
 ViewMatches(v, c) ==
     /\ v.exists = c.exists
     /\ c.exists => /\ v.code = ToString(c.code) /\ v.label = c.label /\ v.admin = c.admin
@@ -32,7 +32,7 @@ MethodOfOp(o) == IF o.op = "instantiate" THEN InstM ELSE IF o.op = "migrate" THE
 OkAttrs(m) == << <<"h", m.name>>, <<"code", ToString(m.code)>> >>
 QRespJson(m) ==
     [t |-> "o", f |-> << [k |-> "h", v |-> [t |-> "s", v |-> m.name]], [k |-> "code", v |-> [t |-> "n", v |-> ToString(m.code)]] >>
-                      \o (IF m.resp = "QRespB" THEN << [k |-> "extra", v |-> [t |-> "b", v |-> "true"]] >> ELSE <<>>)]
+                      \o (IF m.ret = "QRespB" THEN << [k |-> "extra", v |-> [t |-> "b", v |-> "true"]] >> ELSE <<>>)]
 ResMatches(r, o) ==      \* what the specification says the caller gets
     IF o.op = "store" THEN r.ok
     ELSE LET m == MethodOfOp(o) IN
